@@ -1,12 +1,12 @@
 """C15 - solver and preconditioner objects are reusable; calls do not leak state."""
 import json, re
 
-KINDS = '{"solve", "solve_guess", "solve_mtx", "zero_rhs", "converged_guess", "nan_rhs", "throw_inside", "diverge"}'
+NKINDS = 10
 
 def run(c):
     th = c.thorough()
-    c.rule = ("model: all call histories of length <= 3 (4 thorough) over 8 call kinds on an object with persistent work registers "
-              "and the LGMRES outer-vector ring (K <= 2..3, <= 3 restarts per call); code: every history TLC emits (512 / 4096) replayed "
+    c.rule = ("model: all call histories of length <= 3 (4 thorough) over 10 call kinds on an object with persistent work registers "
+              "and the LGMRES outer-vector ring (K <= 2..3, <= 3 restarts per call); code: every history TLC emits (1000 / 10000) replayed "
               "on one real object per kind (8 Krylov solvers, preonly, two amg, as_preconditioner, skyline_lu, make_solver) and call by "
               "call on fresh objects, bitwise; op streams of a stride of the histories through the NoLeak monitor. "
               "non-trivial = a call at position >= 2 of a history; distinct by (object, history prefix)")
@@ -23,8 +23,8 @@ def run(c):
         c.vacuous.append("SolverObject with AlwaysReset=FALSE does not show the documented LGMRES carry-over")
     h = c.tlc_model("SolverObject", cfg="SolverObjectHist.cfg", constants={"MaxCalls": calls}, workers=1, coverage=False)
     hists = sorted(set(re.sub(r'[\\" ]', "", m) for m in re.findall(r'HIST <<(.*?)>>', h["output"])))
-    if len(hists) != 8 ** calls:
-        raise Exception("expected %d histories from TLC, got %d" % (8 ** calls, len(hists)))
+    if len(hists) != NKINDS ** calls:
+        raise Exception("expected %d histories from TLC, got %d" % (NKINDS ** calls, len(hists)))
     hp = c.path("hists.txt")
     open(hp, "w").write("\n".join(hists) + "\n")
     c.exhaustive = True
